@@ -91,6 +91,9 @@ struct Env {
     harness_files: HashMap<String, Vec<u8>>,
     /// a `SendHave` the manager broadcasts while this connection's `Init` is being answered (script event `H<i>`)
     early_have: Option<(broadcast::Sender<BroadCmd>, usize)>,
+    /// inode of every file the harness has put under a piece's name before the step: a store that writes the same bytes
+    /// again (temporary file renamed over it) is still seen
+    stale_inos: HashMap<String, u64>,
 }
 
 impl Env {
@@ -248,7 +251,18 @@ impl Env {
         names.sort();
         for n in names {
             let data = std::fs::read(&n).unwrap_or_default();
-            if before.get(&n) != Some(&data) && self.harness_files.get(&n) != Some(&data) {
+            let replaced = {
+                use std::os::unix::fs::MetadataExt;
+                let ino = std::fs::metadata(&n).map(|m| m.ino()).unwrap_or(0);
+                match self.stale_inos.get_mut(&n) {
+                    Some(i) if *i != ino => {
+                        *i = ino;
+                        true
+                    }
+                    _ => false,
+                }
+            };
+            if (before.get(&n) != Some(&data) || replaced) && self.harness_files.get(&n) != Some(&data) {
                 self.out.push(format!(
                     "s={}:{}:{}",
                     n.trim_end_matches(".piece").to_lowercase(),
@@ -273,9 +287,12 @@ pub fn op_hand(mode: &str, np: usize, script: &str) -> String {
     // "s-" in front of the mode: the download directory is not clean - under the name of every piece the task is asked to
     // fetch lies a stale, partial file (an interrupted earlier run); it is put back before every step until the piece is stored
     // "d-": in the way of every piece being fetched there is a *directory* of the piece file's name, so the store fails
+    // "v-": what lies there is the *verified* piece (another connection fetching the same piece stored it a moment ago: end
+    // game); it must still be there afterwards whatever this connection receives
     let dir_on = mode.starts_with("d-");
-    let stale_on = mode.starts_with("s-") || dir_on;
-    let mode = mode.trim_start_matches("s-").trim_start_matches("d-").to_string();
+    let ver_on = mode.starts_with("v-");
+    let stale_on = mode.starts_with("s-") || dir_on || ver_on;
+    let mode = mode.trim_start_matches("s-").trim_start_matches("d-").trim_start_matches("v-").to_string();
     let r = catch(|| {
         // one blocking thread: file operations of the task (tokio::fs) and the barrier below share one FIFO queue
         let rt = tokio::runtime::Builder::new_current_thread().enable_all().start_paused(true).max_blocking_threads(1).build().unwrap();
@@ -296,7 +313,7 @@ pub fn op_hand(mode: &str, np: usize, script: &str) -> String {
             let (ours, theirs) = tokio::io::duplex(1 << 22);
             let mut handler = PeerHandler::new(ADDR.to_string(), own_id, peer_id, info_hash, np, cmd_tx, broad_rx);
             let mut task = tokio::spawn(async move { handler.verif_run_mem(theirs).await });
-            let mut env = Env { cmds: cmd_rx, peer: ours, rbuf: vec![], out: vec![], terminated: false, progress: false, harness_files: HashMap::new(), early_have: None };
+            let mut env = Env { cmds: cmd_rx, peer: ours, rbuf: vec![], out: vec![], terminated: false, progress: false, harness_files: HashMap::new(), early_have: None, stale_inos: HashMap::new() };
             let mut files: HashMap<String, Vec<u8>> = HashMap::new();
             let mut stale: HashMap<String, Vec<u8>> = HashMap::new();
             let mut results: Vec<String> = vec![];
@@ -313,7 +330,7 @@ pub fn op_hand(mode: &str, np: usize, script: &str) -> String {
                 if stale_on {
                     if let Some(Reply::Req(i, l, true, _)) = &reply {
                         let c = content(*i, *l);
-                        stale.entry(hash_to_string(&piece_hash(*i, *l, true)) + ".piece").or_insert_with(|| c[..c.len() / 3].to_vec());
+                        stale.entry(hash_to_string(&piece_hash(*i, *l, true)) + ".piece").or_insert_with(|| if ver_on { c.clone() } else { c[..c.len() / 3].to_vec() });
                     }
                     for (n, d) in stale.iter_mut() {
                         if dir_on {
@@ -321,6 +338,8 @@ pub fn op_hand(mode: &str, np: usize, script: &str) -> String {
                             let _ = std::fs::create_dir_all(n.as_str());
                         } else {
                             std::fs::write(n.as_str(), &d).unwrap();
+                            use std::os::unix::fs::MetadataExt;
+                            env.stale_inos.insert(n.clone(), std::fs::metadata(n.as_str()).map(|m| m.ino()).unwrap_or(0));
                         }
                         files.insert(n.clone(), d.clone());
                     }
@@ -340,7 +359,15 @@ pub fn op_hand(mode: &str, np: usize, script: &str) -> String {
                         }
                     } else if body == "s" {
                         // start of the task: nothing to inject, the reply answers Init
-                    } else if let Some(m) = body.strip_prefix("f:") {
+                    } else if body.starts_with("f:") || (body.starts_with('g') && body.contains(':')) {
+                        // `g<cut>:` = the same frame as `f:`, delivered in two segments
+                        let (cut, m): (Option<usize>, &str) = match body.strip_prefix("f:") {
+                            Some(m) => (None, m),
+                            None => {
+                                let (c, m) = body[1..].split_once(':').unwrap();
+                                (Some(c.parse().unwrap()), m)
+                            }
+                        };
                         let toks: Vec<&str> = m.split(',').collect();
                         let bytes = if toks[0] == "pb" {
                             // correct block of piece idx (plen) at begin/len
@@ -362,7 +389,24 @@ pub fn op_hand(mode: &str, np: usize, script: &str) -> String {
                         } else {
                             impl_data(&m_of_toks(&toks))
                         };
-                        let _ = env.peer.write_all(&bytes).await;
+                        match cut {
+                            Some(c) if bytes.len() > 1 => {
+                                let c = c.clamp(1, bytes.len() - 1);
+                                let _ = env.peer.write_all(&bytes[..c]).await;
+                                // let the task read and look at the first segment
+                                for _ in 0..12 {
+                                    tokio::task::yield_now().await;
+                                }
+                                let _ = tokio::task::spawn_blocking(|| ()).await;
+                                for _ in 0..12 {
+                                    tokio::task::yield_now().await;
+                                }
+                                let _ = env.peer.write_all(&bytes[c..]).await;
+                            }
+                            _ => {
+                                let _ = env.peer.write_all(&bytes).await;
+                            }
+                        }
                     } else if let Some(h) = body.strip_prefix("x:") {
                         let _ = env.peer.write_all(&unhex(h)).await;
                     } else if let Some(k) = body.strip_prefix("p:") {
@@ -421,6 +465,15 @@ pub fn op_hand(mode: &str, np: usize, script: &str) -> String {
                     env.terminated = true;
                 }
                 env.note_new_files(&mut files);
+                // a file the harness had put there and the task has removed
+                if stale_on && !dir_on {
+                    let mut gone: Vec<&String> = stale.keys().filter(|n| !std::path::Path::new(n.as_str()).exists()).collect();
+                    gone.sort();
+                    for n in gone {
+                        env.out.push(format!("gone={}:{}", n.trim_end_matches(".piece").to_lowercase(), if ver_on { "verified" } else { "partial" }));
+                    }
+                }
+                env.stale_inos.clear();
                 // a stale file that has been replaced by a stored piece is not put back
                 stale.retain(|n, d| files.get(n) == Some(d));
                 // every save must be observed anew, also when the same piece is stored twice
@@ -866,11 +919,17 @@ pub fn gen_script(r: &mut Rng, flavor: &str) -> String {
                 }
             }
         };
+        // a block request that reaches the task in two segments (cut after 1..16 of its 17 bytes): same frame, same answer
+        let ev = if flavor == "C09" && ev.starts_with("f:rq,") && r.chance(1, 3) {
+            format!("g{}:{}", 1 + r.below(16), &ev[2..])
+        } else {
+            ev
+        };
         evs.push(ev);
     }
     // x: events must be fatal for the frame decoder; "0000000109" is an unknown id (skipped) → replace
     let mode = if (flavor == "C01" || flavor == "C10") && r.chance(1, 3) {
-        format!("{}-{}", if r.chance(1, 4) { "d" } else { "s" }, mode)
+        format!("{}-{}", if r.chance(1, 4) { "d" } else if r.chance(1, 3) { "v" } else { "s" }, mode)
     } else {
         mode
     };
